@@ -34,6 +34,8 @@ import Hertz.Proofs.ClientPool
 import Hertz.Proofs.ClientSeq
 import Hertz.Proofs.ClientWire
 import Hertz.Proofs.ClientHosts
+import Hertz.Proofs.ClientHelper
+import Hertz.Gen.ClientHelper
 namespace Hertz.Props.C10
 open Hertz.Pool
 
@@ -427,5 +429,53 @@ TODO-OPEN (not proved here; checked at run time by harness/c10.go on every case)
    `sim.ok` (every event it emits is accepted by `step`), but `seq_program_accepted` has not been
    extended to it.  The janitor's period (10 s) and `MaxConnDuration` are real time in the harness.
 -/
+
+/-! ## the convenience layer: `GetURLTimeout` / `GetURLDeadline` (`Model/ClientHelper.lean`)
+
+A timed-out call leaves its goroutine running; the goroutine still sends its result on the channel it was started with.
+"The response returned to a caller is the response to that caller's request" therefore rests on the discipline of the
+pool of result channels: a channel goes back into the pool only on the receive branch. -/
+section Helper
+open Hertz.ClientHelper
+
+/-- **a helper call returns the result of its own request**: in every run (any number of calls, any interleaving of
+starts, goroutine completions, receives and timeouts, any choice `sync.Pool.Get` makes) a call that returns a result
+returns the result of ITS request. -/
+theorem helper_result_belongs_to_call (es : List ClientHelper.Ev) (i v : Call) (h : (run false init es).phase i = .got v) : v = i :=
+  (inv_run init inv_init es).gotOwn i v h
+
+/-- … because a pooled channel is quiet: empty, nobody waits on it, and no goroutine is going to send on it -/
+theorem helper_pooled_channel_quiet (es : List ClientHelper.Ev) (c : Chan) (hc : c ∈ (run false init es).pool) :
+    (run false init es).buf c = none ∧ (∀ j, (run false init es).worker j ≠ some c) ∧
+    (∀ j, (run false init es).phase j ≠ .waiting c) :=
+  let I := inv_run init inv_init es
+  ⟨I.poolEmpty c hc, I.poolNoWorker c hc, I.poolNoWaiter c hc⟩
+
+/-- … and a waiting call shares its channel with no other call and no other goroutine -/
+theorem helper_channel_exclusive (es : List ClientHelper.Ev) (i j : Call) (c : Chan) (h : (run false init es).phase i = .waiting c) :
+    ((run false init es).phase j = .waiting c → i = j) ∧ ((run false init es).worker j = some c → j = i) :=
+  let I := inv_run init inv_init es
+  ⟨fun h2 => I.waitUnique i j c h h2, fun hw => I.waitWorker i c j h hw⟩
+
+/-- non-vacuity: call 0 times out, its late answer arrives while calls 1 and 2 run on other channels; call 3 then
+reuses a pooled channel; everyone who gets an answer gets his own -/
+example : let s := run false init [.start 0 0, .timeout 0, .start 1 0, .send 1, .recv 1, .start 2 0, .send 0, .send 2, .recv 2, .start 3 0, .send 3, .recv 3]
+    (s.phase 0, s.phase 1, s.phase 2, s.phase 3) = (.timedOut, .got 1, .got 2, .got 3) ∧ s.pool.length = 1 := by decide
+
+/-- **the timeout branch must not return the channel**: in the variant that puts the channel back on the timeout branch
+too, call 0 times out, call 1 is handed the same channel, the late answer of call 0 arrives, and call 1 returns the
+result of call 0 (seed C10-m5; replayed on the real code by the op `c10url`). -/
+theorem helper_timeout_must_not_put_back :
+    (run true init [.start 0 0, .timeout 0, .start 1 0, .send 0, .recv 1]).phase 1 = .got 0 := by decide
+
+/-- the pool sites of the current source are the ones the model was written against: `Get`, `make(chan, 1)`, one send
+inside the goroutine, `Put` on the receive branch ONLY -/
+theorem helper_sites_match_source :
+    Hertz.Gen.ClientHelper.sites =
+      [("GetURLDeadline", "", "get"), ("GetURLDeadline", "", "make:1"), ("GetURLDeadline", "", "go:send ch"),
+       ("GetURLDeadline", "resp := <-ch", "case"), ("GetURLDeadline", "resp := <-ch", "put"),
+       ("GetURLDeadline", "<-tc.C", "case")] := by decide
+
+end Helper
 
 end Hertz.Props.C10
